@@ -435,6 +435,30 @@ def r_keep(prog, R):
     r.info["sites"] = n
 
 
+def r_split(prog, R):
+    r = R.rule("R-C15-SPLIT", "configuration text is split into tokens without a section limit; a limit (where the last section takes the rest of the line) is used only for 'key<sep>value' with exactly two sections", floor=8,
+               analysis="A-TAB argument table of every splitter call")
+    n = 0
+    for f in sorted(prog.funcs.values(), key=lambda x: x.key):
+        if f.file.startswith("src/lib/str/"):
+            continue
+        for b, i, c in f.calls():
+            if c.get("callee") not in ("ares_buf_split", "ares_buf_split_str", "ares_buf_split_str_array"):
+                continue
+            n += 1
+            mx = call_arg(c, 4)
+            v = const_val(mx)
+            dl = const_val(call_arg(c, 2))
+            k = "fn=%s %s max_sections" % (f.name, c["callee"])
+            if v == 0:
+                r.ok(k + " = 0 (every token separate)", f.loc(c["ln"]))
+            elif v == 2 and dl == 1:
+                r.ok(k + " = 2 on a single separator (key / rest of line)", f.loc(c["ln"]))
+            else:
+                r.viol(k, f.name, f.loc(c["ln"]), "%s splits with a section limit of '%s': the limit does not drop surplus tokens, it makes the last element swallow the rest of the text including the separators, so a list value such as 'domain a b' becomes one bogus entry instead of its first valid token" % (f.name, render(mx)))
+    r.info["split_calls"] = n
+
+
 def run(prog, R, tier):
     R.assume("callees are given valid (non-NULL) pointers by the configuration parsers (defensive NULL-argument returns are not part of the return sets)")
     ownrules.own_rule(prog, R, "R-C15-OWN", FILES, floor=30)
@@ -443,3 +467,4 @@ def run(prog, R, tier):
     r_fields(prog, R)
     r_accum(prog, R)
     r_keep(prog, R)
+    r_split(prog, R)
